@@ -281,3 +281,20 @@ PROPS["C06"].jobs += [Job("d3-float", single(3, 1, "float"), quick=(2, 300, 100)
                       Job("d2-double-float", single(2, 3, "double", "float"), quick=(2, 300, 100), thorough=(16, 4000, 100)),
                       Job("d3-nx0", single(3, 0), quick=(1, 300, 100), thorough=(16, 4000, 100))]
 PROPS["C01"].jobs += [Job("d3-float", single(3, 1, "float"), quick=(2, 300, 100), thorough=(16, 4000, 100))]
+
+
+def counter(rt, dim=3):
+    if rt == 1:
+        return Bin("t_counter_omp_d%d" % dim, ["props/t_counter.cpp", "runtimes/mockgomp.cpp"], {"DIM": dim, "RT": 1}, cxxflags=["-fopenmp"], ldflags=["-lpthread"])
+    return Bin("t_counter_seq_d%d" % dim, ["props/t_counter.cpp"], {"DIM": dim, "RT": 0})
+
+
+PROPS["C18"] = Meta(
+    [Job("cnt-seq-d3", counter(0, 3), quick=(4, 400, 100), thorough=(16, 5000, 100)),
+     Job("cnt-seq-d2", counter(0, 2), quick=(3, 400, 100), thorough=(16, 5000, 100)),
+     Job("cnt-omp-d3", counter(1, 3), quick=(5, 300, 100), thorough=(16, 4000, 100)),
+     Job("cnt-omp-d2", counter(1, 2), quick=(2, 300, 100), thorough=(16, 4000, 100))],
+    "FmmCase (all block sizes / modes / working levels) run 1..3 times with TbfInteractionCounter<probe kernel>, sequentially and with the OpenMP executor under generated schedules and "
+    "1..16 workers; per-worker counters merged with Reduce in a generated order; oracle = results bit-identical to the unwrapped kernel, merged counters = model counts x executions "
+    "(P2M=L2P=leaves, M2M=L2L=parent-child links at working levels, M2L=existing transfer pairs, P2P=sum n_a*n_b over adjacent unordered leaf pairs, P2PInner=sum n(n-1)); "
+    "non-trivial = counts spread over >= 2 kernel copies (OpenMP) / >= 1 M2L and >= 1 P2P (sequential)", SCHED_ASSUME)
